@@ -186,6 +186,8 @@ def augment_with_impl(text, impl_out):
         if p[0] == "case":
             case = p[1]; n = 0
             res.append(line); continue
+        if p[0].startswith("#"):
+            continue
         if p[0] in producing or (p[0] not in NONPRODUCING):
             key = "%s.%d" % (case, n)
             if p[0] == "call" and key in outs:
@@ -195,7 +197,7 @@ def augment_with_impl(text, impl_out):
     return "\n".join(res) + "\n"
 
 
-NONPRODUCING = {"case", "gravity", "q", "qd", "qdd", "tau", "fext", "poison", "impl", "#"}
+NONPRODUCING = {"case", "gravity", "q", "qd", "qdd", "tau", "fext", "poison", "impl", "#", "cs_new", "cs_bind", "cs_solver", "cs_actuation", "cs_vplus"}
 
 
 def split_lines(out):
@@ -417,6 +419,8 @@ def main(argv):
         text = payload.get("case", "")
         stats, distinct, samples, ncases = {}, 0, [], text.count("case ")
     else:
+        import gen_cases
+        gen_cases.MODEL_EXE = exe_model
         text, stats, distinct, samples = P["gen"](seed, tier)
         ncases = sum(1 for l in text.splitlines() if l.startswith("case "))
 
